@@ -3,6 +3,7 @@ package main
 // C12 (every stored value is normalised to one of seven kinds) and C13 (native conversions).
 
 import (
+	"time"
 	"fmt"
 	"math"
 	"reflect"
@@ -123,9 +124,20 @@ func (r *R) govScalar() gv {
 
 type myStruct struct{ A int }
 
+// defined types over supported underlying types are NOT among the supported dynamic types
+type myInt int
+type myInt8 int8
+type myUint16 uint16
+type myString string
+type myBool bool
+type myFloat float64
+type mySlice []any
+type myMap map[string]any
+
 func (r *R) govOther() gv {
 	xs := []any{[]int8{1}, myStruct{1}, map[int]any{1: 2}, [2]int{1, 2}, (*int)(nil), uintptr(3), complex(1, 2), []byte("x"), make(chan int), []uint{1},
-		map[string]int8{"a": 1}, []float32{1}, &myStruct{2}, func() {}, []any(nil)[:0:0], int64(5)}
+		map[string]int8{"a": 1}, []float32{1}, &myStruct{2}, func() {}, []any(nil)[:0:0], int64(5),
+		time.Duration(5), time.Month(3), myInt(7), myInt8(-3), myUint16(9), myString("s"), myBool(true), myFloat(1.5), mySlice{1}, myMap{"a": 1}}
 	x := pickOf(r, xs)
 	switch x.(type) {
 	case int64:
@@ -426,6 +438,21 @@ func genC12(r *R, n int, tier string, out *Out) {
 				if x, ok := got.(float64); !ok || !(x == float64(v.(float32)) || (math.IsNaN(x) && math.IsNaN(float64(v.(float32))))) {
 					f.fail("float32 %v stored as %v", v, got)
 				}
+			}
+			// a list of zero repetitions is an ordinary empty list (it can be stored, read back, printed, compared)
+			if try(func() {
+				z := at.NewListOf(v, 0)
+				if z.Count() != 0 || !z.Empty() || z.String() != "[]" || !z.Equals(at.NewList()) {
+					f.fail("NewListOf(x, 0) is not an empty list")
+				}
+				if h := at.NewList(z); h.TypeOf(0) != at.TypeList || h.Get(0) != any(z) || h.GetList(0) != z {
+					f.fail("NewListOf(x, 0) stored in a list is not read back as itself")
+				}
+				if z.Add(1) != z || z.Count() != 1 {
+					f.fail("Add on NewListOf(x, 0) does not behave like Add on an empty list")
+				}
+			}) {
+				f.fail("NewListOf(x, 0) cannot be used like an empty list (panic)")
 			}
 			// an existing container is stored by reference
 			switch c := v.(type) {
